@@ -150,5 +150,21 @@ CLAIMS['C36'] = {
   'note': _TB + 'Page buffer and cursor sprite are recording stand-ins; set_pos precondition -width < col <= 2*width as its callers produce.',
 }
 
+CLAIMS['C19'] = {
+  'text': 'Proof of per-statement transition contracts on the interpreter record: GOSUB/RETURN push and pop exactly the return record at any nesting depth 0..3 (symbolic positions, both run modes) with RETURN without GOSUB / Undefined line number, '
+          'ON x GOTO/GOSUB selects the x-th target, falls through for 0 and beyond the list, Illegal function call outside 0..255, WEND stack discipline, FOR assigns the start, pushes one record and skips the body iff the start is already past the limit in the step direction. The visit order of whole programs is not decided.',
+  'note': _TB + 'Code stream is an opaque position; _find_next/_check_while_condition (token scanning, expression evaluation) and devices are stand-ins; STEP 0 is excluded (no direction). NEXT counter step is C02.',
+}
+CLAIMS['C21'] = {
+  'text': 'Proof of transition contracts: trap_error records ERR and the error position and either enters the handler (recording the failing statement and mode, suspending event traps) or stops with the same error (no handler, ON ERROR GOTO 0, error inside the handler); '
+          'RESUME / RESUME NEXT / RESUME n restore or skip or jump as specified and clear the handler state, RESUME without error outside a handler; ERL/ERR/ERROR/ON ERROR GOTO as specified, for symbolic codes and positions.',
+  'note': _TB + 'Code stream is an opaque position over a fixed line table; that current_statement is the start of the failing statement is maintained by parse() and not covered.',
+}
+CLAIMS['C38'] = {
+  'text': 'Proof of transition contracts over symbolic handler records: a trap subroutine is entered only if a program is running, traps are not suspended, and the handler is enabled, triggered, not stopped and has a line; dispatch consumes the trigger and stops the event; only its own RETURN (or ON) clears stopped; ON/OFF/STOP keep a recorded occurrence; '
+          'plus an AST frame check that no other function writes event state. Hence no re-entry and no dispatch during an error handler (lemma over the contracts).',
+  'note': _TB + 'Two symbolic handlers stand for any number; trigger conditions of the device handlers and the input-queue plumbing ("lost while OFF") are not covered.',
+}
+
 NOT_APPLICABLE = {
 }
